@@ -127,6 +127,9 @@ def run(ctx):
         opt = (" mindepth %d" % j["mn"] if j["mn"] else "") + (" maxdepth %d" % j["mx"] if j["mx"] else "") + (" dfs" if j["dfs"] else "")
         r_arc = ctx.impl.rows(["path from %s archives%s into list" % (rb, opt)], cwd=ctx.scratch)
         r_no = ctx.impl.rows(["path from %s%s into list" % (rb, opt)], cwd=ctx.scratch)
+        # the same search under a configuration file that sets something else and says nothing about archives:
+        # the built-in list of zip extensions (.zip .jar .war .ear) applies
+        r_cfg = ctx.impl.rows(["path from %s archives%s into list" % (rb, opt)], cwd=ctx.scratch, env={"HOME": min_home, "XDG_CONFIG_HOME": os.path.join(min_home, ".config")})
         cols, rc = qlib.select(ctx.impl, "path, name, size, is_dir, mode, modified", "from %s arc%s" % (rb, opt), cwd=ctx.scratch)
         lim = ctx.rng.choice([1, 2, 3, 5])
         r_f, _ = qlib.select(ctx.impl, "path, size", "from %s archives%s where size > 5 order by size desc, path limit %d" % (rb, opt, lim), cwd=ctx.scratch)
@@ -138,8 +141,12 @@ def run(ctx):
             for nlim in (1, 2, 4):
                 lim_u, ru = qlib.select(ctx.impl, "path", "from %s archives%s where %s limit %d" % (rb, opt, flt, nlim), cwd=ctx.scratch)
                 ul.append((flt, nlim, full_u, lim_u, ru["query"]))
-        return r_arc, r_no, cols, rc, r_f, r_fa, lim, ul
+        return r_arc, r_no, cols, rc, r_f, r_fa, lim, ul, r_cfg
 
+    min_home = os.path.join(ctx.scratch, "min_home")
+    os.makedirs(os.path.join(min_home, ".config", "fselect"))
+    with open(os.path.join(min_home, ".config", "fselect", "config.toml"), "w") as f:
+        f.write("no_color = true\ncheck_for_updates = false\n")
     res = pmap(one, jobs)
     exprs = []
     for j in jobs:
@@ -148,7 +155,7 @@ def run(ctx):
         exprs.append(walklib.walk_expr([(walklib.opts_term(j["mn"], j["mx"], j["dfs"], arc=True), rb, os.path.realpath(j["root"]),
                                          walklib.node_term(j["obs"], zips=zl), fstree.count(j["obs"]) + 1)]))
     model = walklib.safe_walk_eval(ctx, exprs, "c19", 8)
-    for j, (r_arc, r_no, cols, rc, r_f, r_fa, lim, ul), m in zip(jobs, res, model):
+    for j, (r_arc, r_no, cols, rc, r_f, r_fa, lim, ul, r_cfg), m in zip(jobs, res, model):
         st["evaluations"] += 1
         rb = os.path.basename(j["root"])
         rows_arc = [v.decode("utf-8", "surrogateescape") for v in r_arc["values"]]
@@ -158,6 +165,11 @@ def run(ctx):
                 "argv": ["path from %s archives%s%s%s" % (rb, " mindepth %d" % j["mn"] if j["mn"] else "", " maxdepth %d" % j["mx"] if j["mx"] else "", " dfs" if j["dfs"] else "")]}
         if r_arc["status"] != 0 or r_arc["stderr"] or r_no["status"] != 0:
             ctx.violation("impl-violates-spec", "archive search: status %s, stderr %r" % (r_arc["status"], r_arc["stderr"][:200]), input=case)
+            continue
+        if r_cfg["values"] != r_arc["values"] or r_cfg["status"] != 0:
+            rows_cfg = [v.decode("utf-8", "surrogateescape") for v in r_cfg["values"]]
+            ctx.violation("impl-violates-spec", "under a configuration file that does not mention archives the archive search returns other rows than without one (missing %s, extra %s)"
+                          % (sorted(set(rows_arc) - set(rows_cfg))[:5], sorted(set(rows_cfg) - set(rows_arc))[:5]), input=dict(case, config="no_color = true"))
             continue
         ordinary = [r for r in rows_arc if not r.startswith("[")]
         if ordinary != rows_no:
@@ -242,6 +254,6 @@ def run(ctx):
     st["hist"]["archives_with_unopenable_member"] = getattr(ctx, "badmember_count", 0)
     ctx.coverage.update(
         evaluations=st["evaluations"], distinct_nontrivial=len(st["distinct"]), traces_validated_against_impl=st["agreed"],
-        rule="random trees with 1-4 zip archives (0-8 members: nested dirs, stored/deflated, every file type and permission bits in the unix mode, dates across months incl. months shorter than today's day, unicode/space names), extensions .zip/.jar/.war/.ear in mixed case, a zip under another extension, a non-empty directory named *.zip / *.jar (and a link to it named *.ear), corrupt archives (truncated, flipped central-directory bytes, garbage), archives with one member that cannot be opened (marked encrypted; it is skipped, the rest listed) x bfs/dfs x mindepth/maxdepth windows (an archive outside the window contributes no member row): ordinary rows unchanged, members exactly once after their archive in index order, member columns (name, size, is_dir, mode, modified) = what the archive stores, WHERE/ORDER BY/LIMIT apply (ordered top N, and the unordered first N of filtered searches); exact row sequence vs model.Walk; plus every truncation point of one archive. non-trivial = at least two members",
+        rule="random trees with 1-4 zip archives (0-8 members: nested dirs, stored/deflated, every file type and permission bits in the unix mode, dates across months incl. months shorter than today's day, unicode/space names), extensions .zip/.jar/.war/.ear in mixed case, a zip under another extension, a non-empty directory named *.zip / *.jar (and a link to it named *.ear), corrupt archives (truncated, flipped central-directory bytes, garbage), archives with one member that cannot be opened (marked encrypted; it is skipped, the rest listed) x bfs/dfs x mindepth/maxdepth windows x (the default configuration | a configuration file that says nothing about archive extensions) (an archive outside the window contributes no member row): ordinary rows unchanged, members exactly once after their archive in index order, member columns (name, size, is_dir, mode, modified) = what the archive stores, WHERE/ORDER BY/LIMIT apply (ordered top N, and the unordered first N of filtered searches); exact row sequence vs model.Walk; plus every truncation point of one archive. non-trivial = at least two members",
         samples=st["samples"], distribution=dict(st["hist"]))
     return ctx.finish(trusted=["the zip listing (which members a readable archive has) is an input: Python zipfile writes the archives, the zip crate reads them; corrupt archives are only required not to abort or lose other rows"])
